@@ -126,23 +126,29 @@ func (e *Exec) shorten(key string, ops []string) ([]string, []string) {
 	}
 	last := ops[len(ops)-1]
 	f := strings.Fields(last)
-	if len(f) < 3 || (f[0] != "commit" && f[0] != "mut") {
+	if len(f) < 3 || (f[0] != "commit" && f[0] != "mut" && f[0] != "race" && !(f[0] == "fault" && len(f) == 4 && f[2] == "commit")) {
 		return nil, nil
 	}
-	pre := ""
+	slots := map[string]bool{f[1]: true}
+	if f[0] == "race" {
+		slots[f[2]] = true
+	} else if f[0] == "fault" {
+		slots = map[string]bool{f[3]: true}
+	}
+	var pres []string
 	for i := len(ops) - 2; i > 0; i-- {
-		if strings.HasPrefix(ops[i], "pre "+f[1]+" ") {
-			pre = ops[i]
-			break
+		if w := strings.Fields(ops[i]); len(w) > 2 && w[0] == "pre" && slots[w[1]] {
+			pres = append([]string{ops[i]}, pres...)
+			delete(slots, w[1])
 		}
 	}
-	if pre == "" {
+	if len(slots) > 0 {
 		return nil, nil
 	}
 	if f[0] == "commit" {
 		last = "commit " + f[1] + " 1"
 	}
-	short := []string{ops[0], pre, last}
+	short := append(append([]string{ops[0]}, pres...), last)
 	var keys []string
 	t := &Exec{scratch: e.scratch + "-shorten", out: e.out, blockEvery: e.blockEvery, trial: &keys}
 	var impl []string
@@ -1425,6 +1431,16 @@ func (e *Exec) exec1(f []string, line string) string {
 			return "bad-op"
 		}
 		return e.mut(e.w.slots[f[1]], f[2], f[3:])
+	case "race":
+		if len(f) != 3 || e.w == nil || e.w.slots[f[1]] == nil || e.w.slots[f[2]] == nil {
+			return "bad-op"
+		}
+		return e.race(e.w.slots[f[1]], e.w.slots[f[2]])
+	case "fault":
+		if len(f) < 4 || e.w == nil {
+			return "bad-op"
+		}
+		return e.fault(f[1], f[2], strings.TrimSpace(strings.SplitN(line, " ", 4)[3]))
 	case "mine":
 		if e.w == nil {
 			return "bad-op"
